@@ -430,6 +430,7 @@ func c07Alphabet(family string, m *model.Node) []gen.Edit {
 			for j := 0; j < n; j++ {
 				if i != j {
 					out = append(out, gen.Edit{Op: "arr.move", Path: p, I: i, J: j})
+					out = append(out, gen.Edit{Op: "arr.before", Path: p, I: i, J: j})
 				}
 			}
 		}
